@@ -60,6 +60,8 @@ def run_scenario(case, chooser=None, trace=False, record=False):
 
             def on_disconnect(self, conn):
                 disc[self.name] += 1
+                if case.get("hook_yields"):
+                    k.sleep(0.05)            # a hook that takes its time: other threads of this side run meanwhile
                 if case.get("hook_recloses"):
                     conn.close()             # closing again - even from inside the hook - must be a no-op
 
@@ -378,6 +380,8 @@ def judge(case, R, rec):
         classes.append("close:" + closing["mode"])
         if case.get("before_closed"):
             classes.append("before_closed-hook:" + case["before_closed"])
+        if case.get("hook_yields"):
+            classes.append("disconnect-hook-yields")
         nontrivial = closing["mode"] in ("both", "outstanding", "b-first", "a-overlap")
     for o in R["outcomes"]:
         classes.append("outcome:" + o[1])
@@ -404,7 +408,7 @@ def close_cases():
         "part": st.just("close"), "workload": st.sampled_from([w for w in WORKLOADS if not w.get("loop")]),
         "close": st.fixed_dictionaries({"mode": st.sampled_from(["a-first", "b-first", "both", "both", "outstanding", "twice",
                                                                   "a-overlap", "a-overlap"])}),
-        "hook_recloses": st.booleans(), "before_closed": st.sampled_from([None, None, "ok", "raises", "remote-raises"]),
+        "hook_recloses": st.booleans(), "hook_yields": st.booleans(), "before_closed": st.sampled_from([None, None, "ok", "raises", "remote-raises"]),
         "preempt": st.lists(st.tuples(st.integers(0, 40), st.integers(0, 3)).map(list), max_size=4),
         "np": st.lists(st.integers(0, 3), max_size=8)})
 
